@@ -1392,6 +1392,21 @@ impl Scenario for Out {
             self.correct_ack(1);
             return true;
         }
+        // streamed sends: the application delivers every chunk it still owes
+        let w = {
+            let mut a = self.app.borrow_mut();
+            let j = (0..a.len()).find(|j| a[*j].chunks_wanted > a[*j].chunks_allowed);
+            j.map(|j| {
+                a[j].chunks_allowed += 1;
+                a[j].chunk_waker.take()
+            })
+        };
+        if let Some(w) = w {
+            if let Some(w) = w {
+                w.wake();
+            }
+            return true;
+        }
         false
     }
 
@@ -1419,7 +1434,10 @@ impl Scenario for Out {
                 // sends that are meant to fail locally (C06 converse family)
                 // "packet id in use" is only a legitimate answer if another send with the same caller-chosen id
                 // (that really went out) was outstanding at some time during this sender's life
-                let expected_local_failure = matches!(self.cfg.senders[j], SK::Q1Big | SK::Q1BigId(_) | SK::SubBig)
+                // a send attempted while a streamed publish is open is refused by design
+                let during_stream = self.cfg.senders.iter().any(|k| matches!(k, SK::Stream { .. })) && s.results.iter().all(|r| !r.starts_with("err") || r.contains("ExpectPayload"));
+                let expected_local_failure = during_stream
+                    || matches!(self.cfg.senders[j], SK::Q1Big | SK::Q1BigId(_) | SK::SubBig)
                     || (matches!(self.cfg.senders[j], SK::Q1Id(_)) && self.id_overlap[j] && s.results.iter().all(|r| !r.starts_with("err") || r.contains("PacketIdInUse")));
                 if s.started && !s.cancelled && !expected_local_failure && s.results.iter().any(|r| r.starts_with("err")) {
                     return Err(Violation::new(
